@@ -21,11 +21,41 @@ use std::collections::{BTreeMap, HashSet};
 pub enum K {
     E(Key),
     Ctrl(char),
+    /// an editor key with modifiers other than "exactly CONTROL" held (bit 0 SHIFT, 1 ALT, 2 CONTROL):
+    /// the documentation knows CTRL+letter bindings only, everything else is the plain key
+    M(u8, Key),
+    /// a key the interface has no use for (0 Esc, 1 F1, 2 PageUp, 3 PageDown, 4 Insert, 5 Null, 6 F12): ignored
+    Other(u8),
 }
 
 fn key_event(k: K) -> KeyEvent {
     let none = KeyModifiers::empty();
     match k {
+        K::M(bits, key) => {
+            let mut m = KeyModifiers::empty();
+            if bits & 1 != 0 {
+                m |= KeyModifiers::SHIFT;
+            }
+            if bits & 2 != 0 {
+                m |= KeyModifiers::ALT;
+            }
+            if bits & 4 != 0 {
+                m |= KeyModifiers::CONTROL;
+            }
+            KeyEvent { code: key_event(K::E(key)).code, modifiers: m }
+        }
+        K::Other(i) => KeyEvent {
+            code: match i {
+                0 => KeyCode::Esc,
+                1 => KeyCode::F(1),
+                2 => KeyCode::PageUp,
+                3 => KeyCode::PageDown,
+                4 => KeyCode::Insert,
+                5 => KeyCode::Null,
+                _ => KeyCode::F(12),
+            },
+            modifiers: none,
+        },
         K::Ctrl(c) => KeyEvent { code: KeyCode::Char(c), modifiers: KeyModifiers::CONTROL },
         K::E(Key::Char(c)) => KeyEvent { code: KeyCode::Char(c), modifiers: none },
         K::E(Key::Enter) => KeyEvent { code: KeyCode::Enter, modifiers: none },
@@ -47,6 +77,8 @@ fn key_name(k: &K) -> String {
         K::Ctrl(c) => format!("^{}", c),
         K::E(Key::Char(c)) => format!("'{}", c.escape_default()),
         K::E(o) => format!("{:?}", o),
+        K::M(bits, key) => format!("M{}+{}", bits, key_name(&K::E(*key))),
+        K::Other(i) => format!("Other{}", i),
     }
 }
 
@@ -60,6 +92,15 @@ fn parse_keys(s: &str) -> Vec<K> {
         .map(|t| {
             if let Some(c) = t.strip_prefix('^') {
                 return K::Ctrl(c.chars().next().unwrap());
+            }
+            if let Some(rest) = t.strip_prefix("Other") {
+                return K::Other(rest.parse().unwrap_or(0));
+            }
+            if t.starts_with('M') && t.contains('+') && t[1..2].chars().all(|c| c.is_ascii_digit()) {
+                let (b, rest) = t[1..].split_once('+').unwrap();
+                if let Some(K::E(key)) = parse_keys(rest).first().cloned() {
+                    return K::M(b.parse().unwrap_or(1), key);
+                }
             }
             if let Some(c) = t.strip_prefix('\'') {
                 let un: String = if c.starts_with("\\u{") {
@@ -154,6 +195,16 @@ impl Session {
         // ---------------- reference ----------------
         let mut exp_quit = false;
         let mut tab = false;
+        // what the reference sees
+        let raw = k;
+        let k = match k {
+            // exactly CONTROL: the CTRL+letter bindings; CTRL + a non-letter key is not bound to anything
+            K::M(4, Key::Char(c)) => K::Ctrl(c),
+            K::M(4, _) => K::Other(0),
+            K::M(_, key) => K::E(key),
+            other => other,
+        };
+        let _ = raw;
         if self.note {
             // any key only dismisses the notification
             self.note = false;
@@ -169,6 +220,8 @@ impl Session {
                 K::Ctrl('r') => self.twin.cpu_reset(),
                 K::Ctrl('l') => self.twin.trigger_key_continue(),
                 K::Ctrl(_) => {}
+                K::Other(_) => {}
+                K::M(..) => unreachable!(),
                 K::E(Key::Enter) => {
                     if self.ed.input.is_empty() {
                         self.twin.trigger_key_clock();
@@ -513,6 +566,46 @@ fn long_input_cases() -> Vec<(Vec<K>, Vec<(u16, u16)>)> {
     v
 }
 
+/// Child mode for C06: every `*.asm` file of the directory is loaded the way the interactive front-end
+/// loads programs - as the start-up program and through the `load` command of a running session - and the
+/// interface is drawn. One line per file on stdout: `LISTING <file> ok|refused|panic <where>: <message>`.
+pub fn listing_stage(dir: &str) {
+    let mut files: Vec<std::path::PathBuf> = std::fs::read_dir(dir).map(|d| d.filter_map(|e| e.ok()).map(|e| e.path()).filter(|p| p.extension().map(|x| x == "asm").unwrap_or(false)).collect()).unwrap_or_default();
+    files.sort();
+    let lines = mc::par_map(&files, |f| {
+        let path = f.display().to_string();
+        let name = f.file_name().map(|n| n.to_string_lossy().to_string()).unwrap_or_default();
+        let r = mc::catch(|| -> Result<bool, (String, String)> {
+            let mut loaded = false;
+            if let Ok(mut s) = Session::new_with(Some(&path), crate::args::InitialMachineConfiguration::default()) {
+                loaded = true;
+                s.render(76, 28);
+                s.render(140, 50);
+                for _ in 0..3 {
+                    s.press(K::E(Key::Enter))?;
+                }
+                s.render(76, 28);
+            }
+            let mut s = Session::new();
+            for k in typed(&format!("load {}", path)) {
+                s.press(k)?;
+            }
+            s.render(76, 28);
+            s.render(200, 60);
+            Ok(loaded)
+        });
+        match r {
+            Ok(Ok(true)) => format!("LISTING {} ok", name),
+            Ok(Ok(false)) => format!("LISTING {} refused", name),
+            Ok(Err((k, w))) => format!("LISTING {} differs {}: {}", name, k, w.replace('\n', " | ")),
+            Err(p) => format!("LISTING {} panic {}: {}", name, p.site(), p.msg.replace('\n', " | ")),
+        }
+    });
+    for l in lines {
+        println!("{}", l);
+    }
+}
+
 pub fn run() {
     let mut ctx = Ctx::from_args("model_checking");
     // private working directory with a fixed set of files (completion and `load` see only these)
@@ -529,6 +622,12 @@ pub fn run() {
     // file names wider than any label of the interface, ASCII and multi-byte
     std::fs::write(dir.join("a-program-with-a-rather-long-file-name-0123456789-0123456789.asm"), "#! mrasm\n LD R0, 1\nL:\n JR L\n").unwrap();
     std::fs::write(dir.join("prögrämm-mït-ümläütén-ünd-ñ-ïm-nämën-ÿÿÿÿ.asm"), "#! mrasm\n LD R0, 2\nL:\n JR L\n").unwrap();
+    // comments, labels and operands with multi-byte characters at every byte offset of a line
+    std::fs::write(
+        dir.join("umlaut.asm"),
+        format!("#! mrasm\n{}L:\n JR L\n", (0..70usize).map(|n| format!(" NOP ; {}{}\n", "a".repeat(n % 4), ["ä", "語", "😀"][n % 3].repeat(n))).collect::<String>()),
+    )
+    .unwrap();
     std::fs::write(dir.join("with space.asm"), "#! mrasm\n LD R0, 3\nL:\n JR L\n").unwrap();
     let _ = std::fs::create_dir_all(dir.join("sub"));
     std::fs::write(dir.join("sub").join("inner.asm"), "#! mrasm\n LD R0, 4\nL:\n JR L\n").unwrap();
@@ -619,7 +718,7 @@ pub fn run() {
         ];
         let follow: Vec<Vec<K>> = vec![vec![], vec![K::E(Key::Enter), K::E(Key::Enter)], typed("load ok.asm"), typed("FC = 5"), vec![K::Ctrl('r'), K::E(Key::Enter)], typed("show memory")];
         for (iname, init) in &inits {
-            for prog in [None, Some("ok.asm"), Some("long.asm"), Some("big.asm"), Some("labels.asm"), Some("a-program-with-a-rather-long-file-name-0123456789-0123456789.asm"), Some("prögrämm-mït-ümläütén-ünd-ñ-ïm-nämën-ÿÿÿÿ.asm")] {
+            for prog in [None, Some("ok.asm"), Some("long.asm"), Some("big.asm"), Some("labels.asm"), Some("umlaut.asm"), Some("a-program-with-a-rather-long-file-name-0123456789-0123456789.asm"), Some("prögrämm-mït-ümläütén-ünd-ñ-ïm-nämën-ÿÿÿÿ.asm")] {
                 for f in &follow {
                     startups += 1;
                     let line = format!("startup program={:?} init={} then={}", prog, iname, keys_line(f, 76, 28));
@@ -677,6 +776,7 @@ pub fn run() {
         typed("load long.asm"),
         typed("bogus command"),
         { let mut k = typed("load big.asm"); k.extend(typed("next 700")); k },
+        typed("load umlaut.asm"),
         typed("load a-program-with-a-rather-long-file-name-0123456789-0123456789.asm"),
         typed("load prögrämm-mït-ümläütén-ünd-ñ-ïm-nämën-ÿÿÿÿ.asm"),
         { let mut k = typed("load big.asm"); k.extend(typed("next 1900")); k.extend(typed("show memory")); k },
@@ -894,6 +994,17 @@ pub fn run() {
     {
         let mut keys = editor_alphabet();
         keys.extend([K::Ctrl('a'), K::Ctrl('w'), K::Ctrl('e'), K::Ctrl('r'), K::Ctrl('l'), K::E(Key::Enter)]);
+        // every editor key with every combination of SHIFT / ALT / CONTROL held, and the keys without a use
+        for base in editor_alphabet().into_iter().chain([K::E(Key::Enter)]) {
+            if let K::E(key) = base {
+                for bits in 1..8u8 {
+                    keys.push(K::M(bits, key));
+                }
+            }
+        }
+        for i in 0..7u8 {
+            keys.push(K::Other(i));
+        }
         let prefixes: Vec<Vec<K>> = vec![vec![], typed("set FC = 0x1"), { let mut k = typed("FC = 1"); k.extend(typed("bogus")); k.extend(typed("load o")); k }];
         let mut cases = vec![];
         for k in &keys {
